@@ -24,6 +24,7 @@ type Source struct {
 	Lit      *ast.BasicLit   // its initialiser
 	Text     string
 	Tree     *parse.Tree
+	Trees    map[string]*parse.Tree // associated templates ({{define}})
 	FuncsVar *types.Var                  // the FuncMap variable
 	Funcs    map[string]*ast.FuncLit     // FuncMap entries by template name
 	FuncsInfo *types.Info
@@ -175,31 +176,26 @@ func Extract(prog *load.Program) (*Source, error) {
 		}
 	}
 	// parse
-	trees, err := parseTemplate(src.Text, src.Funcs)
+	tree, trees, err := parseTemplate(src.Text, src.Funcs)
 	if err != nil {
 		return nil, fmt.Errorf("template does not parse: %v", err)
 	}
-	src.Tree = trees
-	countNodes(src.Tree.Root, src.NodeCount)
+	src.Tree, src.Trees = tree, trees
+	for _, t := range trees {
+		countNodes(t.Root, src.NodeCount)
+	}
 	return src, nil
 }
 
-func parseTemplate(text string, funcs map[string]*ast.FuncLit) (*parse.Tree, error) {
+func parseTemplate(text string, funcs map[string]*ast.FuncLit) (*parse.Tree, map[string]*parse.Tree, error) {
 	t := parse.New("moq")
 	t.Mode = parse.SkipFuncCheck
 	trees := map[string]*parse.Tree{}
 	tree, err := t.Parse(text, "", "", trees)
 	if err != nil {
-		return nil, err
+		return nil, nil, err
 	}
-	if len(trees) != 1 {
-		var names []string
-		for n := range trees {
-			names = append(names, n)
-		}
-		return nil, fmt.Errorf("template defines associated templates %v: outside the analysed vocabulary", names)
-	}
-	return tree, nil
+	return tree, trees, nil
 }
 
 func countNodes(n parse.Node, c map[string]int) {
